@@ -106,7 +106,7 @@ SPECIFICATION Spec
 CHECK_DEADLOCK FALSE
 """
 TEXT_INVS = ["BookkeepingOK", "StrictIffWarn", "SlurpOnlyFromHeading", "TrailingHasTarget", "NoWarning", "RoundTrip",
-             "BlocksAsWritten", "NormalForm", "CleanRoundTrip"]
+             "BlocksAsWritten", "NormalForm", "FormsAgree", "CleanRoundTrip"]
 EDIT_INVS = ["BookkeepingOK", "NormalForm", "NormalFormEdited"]
 # (CascadeAgrees is a constant-level formula: it is checked in MC_Changelog_lts.cfg only)
 LTS_INVS = ["LtsTypeOK", "Total", "Deterministic", "StrictIffWarn", "SlurpOnlyFromHeading", "TrailingHasTarget"]
@@ -130,6 +130,8 @@ NEG_CONTROLS = [
                           invs=["NormalForm"]), {"NormalForm"}),
     ("authorOnTruncated", cfg("edit", classes="= {}", lines=2, blocks=1, body=1, budget=0, edits=1, bug="authorOnTruncated",
                               emit=False, invs=EDIT_INVS), {"NormalFormEdited"}),
+    ("acceptsNewlineVersion", cfg("edit", classes="= {}", lines=2, blocks=1, body=1, budget=0, edits=1, bug="acceptsNewlineVersion",
+                                  emit=False, invs=EDIT_INVS), {"NormalFormEdited"}),
 ]
 
 
@@ -213,8 +215,10 @@ def replay_edge(ctx, rng, e, path, eof, canonical, completion=(), stress=False):
     for n in (len(lines) - 1, len(lines), len(lines_full)):
         if n == 0:
             continue
-        msg, _info = cc.c15_laws(cc.join(lines_full[:n]), aea, rng)
+        form = rng.choice(cc.FORMS)
+        msg, _info = cc.c15_laws(cc.join(lines_full[:n]), aea, rng, form)
         if msg:
+            case["form"] = form
             case["lines"] = lines_full[:n]
             case["classes"] = full[:n]
             return case, msg
@@ -250,11 +254,14 @@ def replay_text(ctx, rng, case, aea, canonical, stats, stress=False, alive=None)
     classes = case["t"]
     lines, _ = cc.conc_text(rng, classes, canonical=canonical, stress=stress)
     text = cc.join(lines)
-    msg, info = cc.c15_laws(text, aea, rng)
+    form = rng.choice(cc.FORMS)
+    msg, info = cc.c15_laws(text, aea, rng, form)
     if alive is not None and info.get("cl") is not None:
         alive.add(info["cl"], "text %s" % "".join(c[0] for c in classes))
     if msg:
-        return {"kind": "text", "lines": lines, "aea": aea, "classes": classes}, msg
+        return {"kind": "text", "lines": lines, "aea": aea, "classes": classes, "form": form}, msg
+    if cc.form_kind(form) == "lines" and not text.strip():
+        return None, None           # blank-only text as lines: no "empty file" rule (PEofF); TLC's predictions below are for the text forms
     # diagnostics against TLC's predictions
     stats["warned"] += info["nwarn"] > 0
     stats["formattable"] += bool(info["fmt"])
@@ -290,12 +297,13 @@ def replay_big(ctx, rng, quick):
                 t, _k = cc.conc_line(rng, rng.choice(cc.ALL_CLASSES), stress=True)
                 ls.insert(rng.randint(0, len(ls)), t)
             aea = bool((j + nmut) % 2)
-            msg, _info = cc.c15_laws(cc.join(ls), aea, rng)
+            form = rng.choice(cc.FORMS)
+            msg, _info = cc.c15_laws(cc.join(ls), aea, rng, form)
             ctx.case_seen(("big", mode, j, nmut), True)
             n += 1
             if msg:
                 keep = len(ls) <= 400
-                ctx.violation({"kind": "text", "lines": ls if keep else ls[:400], "aea": aea, "classes": [], "truncated": not keep},
+                ctx.violation({"kind": "text", "lines": ls if keep else ls[:400], "aea": aea, "classes": [], "truncated": not keep, "form": form},
                               "size-stressed text (%s, %d lines, longest %d characters): %s" % (mode, len(ls), max(map(len, ls)), msg))
                 return n
     return n
@@ -308,7 +316,8 @@ def replay_edit(ctx, rng, case, canonical, stats):
     classes, aea, ops = case["t"], case["aea"], case["ops"]
     lines, _ = cc.conc_text(rng, classes, canonical=canonical)
     calls = [[op, cc.conc_edit(rng, op, canonical, uid=i), rng.randrange(6)] for i, op in enumerate(ops)]
-    rec = {"kind": "edit", "lines": lines, "aea": aea, "classes": classes, "calls": calls, "specified": case["spec"]}
+    rec = {"kind": "edit", "lines": lines, "aea": aea, "classes": classes, "calls": calls, "specified": case["spec"],
+           "form": rng.choice(cc.TEXT_FORMS if not "".join(lines).strip() else cc.FORMS)}
     msg = run_edit(rec)
     if isinstance(msg, tuple):          # diagnostics
         fmt_ok = msg[1]
@@ -324,7 +333,7 @@ def run_edit(rec):
     """-> message (violation) or (None, formattable)"""
     from debian.changelog import Changelog
     if rec["lines"]:
-        o = cc.construct(cc.join(rec["lines"]), aea=rec["aea"])
+        o = cc.construct(cc.join(rec["lines"]), aea=rec["aea"], form=rec.get("form", "str"))
         if o.exc:
             return "lenient constructor raised %s" % o.exc
         cl = o.cl
@@ -373,14 +382,17 @@ def run(ctx):
     for i in range(ntr):
         _cls, lines, _ = cc.gen_wellformed(rng, rng.choice([5, 10, 20, maxlines]))
         lines = cc.mutate(rng, lines, rng.choice([1, 1, 2, 3, 5]), maxlines)
-        traces.append(cc.record_parse_trace(lines, aea=bool(i % 2), wf=False, doc_every=5))
+        if i % 9 == 4:
+            lines = [rng.choice(["", "", " ", "\t", "  "]) for _ in range(rng.randint(1, 4))]       # blank-only texts: the forms differ
+        traces.append(cc.record_parse_trace(lines, aea=bool(i % 2), wf=False, doc_every=5, form=cc.FORMS[i % len(cc.FORMS)]))
     for i in range(nedit):
         if i % 6 == 0:
             lines = []
         else:
             _cls, lines, _ = cc.gen_wellformed(rng, rng.choice([4, 8, 14]))
             lines = cc.mutate(rng, lines, rng.choice([0, 0, 1, 1, 2]), 16)
-        t = cc.record_edit_trace(rng, lines, aea=bool(i % 2), nops=rng.randint(1, 12), wf=False, stress=(i % 10 == 9))
+        t = cc.record_edit_trace(rng, lines, aea=bool(i % 2), nops=rng.randint(1, 12), wf=False, stress=(i % 10 == 9),
+                                 form=rng.choice(cc.TEXT_FORMS if not "".join(lines).strip() else cc.FORMS))
         if t is None:
             ctx.violation({"kind": "text", "lines": lines, "aea": bool(i % 2), "classes": []},
                           "lenient constructor raised %s" % cc.construct(cc.join(lines), aea=bool(i % 2)).exc)
@@ -558,12 +570,12 @@ def run(ctx):
         at = info.get(i, 0)
         if t["kind"] == "parse":
             ev = {k: v for k, v in t["lines"][at].items() if k != "doc"} if at < len(t["lines"]) else None
-            ctx.violation({"kind": "trace", "trace": {"kind": "parse", "text": t["text"], "aea": t["aea"], "wf": False},
+            ctx.violation({"kind": "trace", "trace": {"kind": "parse", "text": t["text"], "aea": t["aea"], "wf": False, "iform": t["iform"]},
                            "first_unexplained_event": at + 1},
                           "parsing the first %d lines (last: %r): %s" % (at + 1, t["text"][at] if at < len(t["text"]) else None, law_message(ev)))
         else:
             ev = t["ops"][at] if at < len(t["ops"]) else None
-            ctx.violation({"kind": "trace", "trace": {"kind": "edit", "text": t["text"], "aea": t["aea"], "wf": t["wf"], "calls": t["calls"]},
+            ctx.violation({"kind": "trace", "trace": {"kind": "edit", "text": t["text"], "aea": t["aea"], "wf": t["wf"], "calls": t["calls"], "iform": t["iform"]},
                            "first_unexplained_event": at + 1},
                           "call %d %r: %s" % (at + 1, [t["calls"][at][k] for k in ("op", "i", "x", "arg")] if at < len(t["calls"]) else None, law_message(ev)))
 
@@ -589,13 +601,12 @@ def replay(ctx, case):
             return "the size-stressed text was too large to record; re-run ./check C15 with the same seed"
         import random
         for seed in range(4):           # the laws also cover repeated parses in varying order
-            msg, _ = cc.c15_laws(cc.join(case["lines"]), case["aea"], random.Random(seed))
+            msg, _ = cc.c15_laws(cc.join(case["lines"]), case["aea"], random.Random(seed), case.get("form", "str"))
             if msg:
                 return msg
         return None
     if kind == "hist":
-        contents = [tuple(c) if isinstance(c, list) else c for c in case["contents"]]
-        return cc.run_hist(dict(case, contents=contents), c04=False)
+        return cc.run_hist(dict(case, contents=cc.norm_contents(case["contents"]), tail_contents=cc.norm_contents(case.get("tail_contents", []))), c04=False)
     if kind == "alive":
         return "cross-object interference is not replayable from a single case; re-run ./check C15 (%s)" % case.get("note")
     if kind == "edit":
